@@ -94,6 +94,43 @@ class Buf:
         return z3.If(self.has(f), self.st.sel("CView", Val.addr(c)), self.st.sel("Res", f))
 
 
+# [L-SUM]  size == sum over files of contrib(f).  The sum over the (finitely many) files of a buffer is an
+# uninterpreted function of the buffer dict value and the heap; the two facts about finite sums of non-negative
+# terms that the proofs use are stated as axioms with WITNESS functions and instantiated by hand:
+#   (zero)  Sum(S) >= contrib_S(f) >= 0 for every f;   Sum(S) > 0  =>  contrib_S(w(S)) > 0
+#   (step)  d = diff(S, S', f):  (d == f or contrib_S'(d) == contrib_S(d))  =>  Sum(S') - Sum(S) == contrib_S'(f) - contrib_S(f)
+ARR_IV = z3.ArraySort(IntS, Val)
+
+
+def buf_sum(b):
+    return F("buf_sum_" + b.strategy, Val, ARR_IV, IntS)(b.B, b.st.g["Cell"])
+
+
+def sum_witness(b):
+    return F("buf_sum_witness_" + b.strategy, Val, ARR_IV, Val)(b.B, b.st.g["Cell"])
+
+
+def sum_diff(bp, bq, f):
+    return F("buf_sum_diff_" + bp.strategy, Val, ARR_IV, Val, ARR_IV, Val, Val)(bp.B, bp.st.g["Cell"], bq.B, bq.st.g["Cell"], f)
+
+
+def lsum_bounds(b, f):
+    return z3.And(buf_sum(b) >= b.contrib(f), b.contrib(f) >= 0)
+
+
+def lsum_zero(b):
+    return z3.Implies(buf_sum(b) > 0, b.contrib(sum_witness(b)) > 0)
+
+
+def lsum_step(bp, bq, f):
+    d = sum_diff(bp, bq, f)
+    return z3.Implies(z3.Or(d == f, bq.contrib(d) == bp.contrib(d)), buf_sum(bq) - buf_sum(bp) == bq.contrib(f) - bp.contrib(f))
+
+
+def inv_size(b):
+    return b.size == buf_sum(b)
+
+
 def known_files(st, cname):
     """Filenames the current state talks about: those of the known root objects of class cname + Skolems."""
     out = []
@@ -130,7 +167,8 @@ class FlushBufferContract(Contract):
     sidecar invariant FlushBufferLoop; the popped collections are objects of unknown identity whose _flush is the
     FlushContract, itself proved against each class's real _flush) from a state satisfying Inv.cover / Inv.registry;
     `requires` (Inv.cover at the caller's files; the shared strategy retains on a forced flush) is checked at every
-    call site.  Only the two size clauses rest on the paper lemma [L-SUM].
+    call site.  The size clauses (Inv.size kept, size >= 0, size == 0 after a forced flush without fault) are proved
+    from Inv.size at entry with the two [L-SUM] axioms about finite sums (witness functions, instantiated by hand).
     Clauses, pointwise per file f (call sites: the files of the known objects and the Skolem files; definition: a
     Skolem file), none of them claimed for a file at which an injected I/O fault was recorded:
       force:   afterwards the reported size is 0 [L-SUM]; (serialized) f has no entry, (shared) f's entry is unmodified;
@@ -222,13 +260,35 @@ class FlushBufferContract(Contract):
                                                                               bq.field(f, K_CONTENTS) == bp.field(f, K_CONTENTS)))))
             for t in c.pre.ghost.get("foreign_cells", []):
                 out.append(("frame:foreign-container", c.post.sel("Cell", t) == c.pre.sel("Cell", t)))
+            c.eng.note("[L-SUM]")
             if c.mode == "assume":
-                # [L-SUM] (paper): Inv.size  size == sum over files of contrib(f);  every iteration keeps it (the
-                # FlushContract clause C15:size-tracks-this-file + other-entries-untouched), and after a forced flush
-                # no file contributes (C15:forced-entries-dropped / forced-entries-clean, proved pointwise): size == 0
-                c.eng.note("[L-SUM]")
-                out.append(("C15:size-zero-after-forced-flush", z3.Implies(forced(c), bq.size == 0)))
+                # call sites: Inv.size holds whenever _flush_buffer is called ([Inv.size], see DESIGN.md 11.3), so the
+                # clauses proved below under `Inv.size(pre)` are available unconditionally
+                if not raised:
+                    out.append(("C15:size-zero-after-forced-flush", z3.Implies(forced(c), bq.size == 0)))
                 out.append(("size-nonnegative", bq.size >= 0))
+                out.append(("C15:Inv.size-kept", inv_size(bq)))
+                c.post.ghost["size_anchor"] = c.post.copy()
+            else:
+                # definition: from Inv.size at entry (assumed by the definition check).  The state just before the
+                # registry is re-bound satisfies Inv.size (loop invariant); re-binding allocates a new dict object:
+                # [L-SUM] (step) across it, with Inv.buffer at the witness file
+                y = c.post.ghost.get("pre_box_state")
+                f0 = c.pre.ghost["skolem_files"][0]
+                hyp = [lsum_bounds(bq, f0), lsum_zero(bq)]
+                if y is not None:
+                    by = Buf(c.eng, y, cn)
+                    d = sum_diff(by, bq, f0)
+                    hyp += [lsum_step(by, bq, f0),
+                            z3.Implies(by.has(d), z3.And(by.wellformed(d), by.entry_addr(d) < y.g["Alloc"])),
+                            z3.Implies(by.has(f0), z3.And(by.wellformed(f0), by.entry_addr(f0) < y.g["Alloc"]))]
+                H = smt.and_(hyp)
+                out.append(("C15:Inv.size-kept", z3.Implies(H, inv_size(bq))))
+                out.append(("size-nonnegative", z3.Implies(H, bq.size >= 0)))
+                # size == 0 after a forced flush: the Skolem file is bound to the file that would still contribute
+                nf0 = z3.Not(z3.Select(c.post.g["IoFault"], f0)) if "IoFault" in c.post.g else z3.BoolVal(True)
+                out.append(("C15:size-zero-after-forced-flush",
+                            z3.Implies(z3.And(H, f0 == sum_witness(bq), forced(c), nf0), bq.size == 0)))
             out.append(("alloc", c.post.g["Alloc"] >= c.pre.g["Alloc"]))
             out.append(("registry-is-a-container", z3.BoolVal(True)))
             out.append(("C10:lock-tables-only-grow", core.locks_monotone(c)))
@@ -404,6 +464,14 @@ class FlushContract(Contract):
                     out.append(("frame:other-faults", z3.Implies(g != f, z3.Select(post.g["IoFault"], g) == z3.Select(pre.g["IoFault"], g))))
             for t in list(pre.ghost.get("foreign_cells", [])):
                 out.append(("frame:foreign-container", post.sel("Cell", t) == pre.sel("Cell", t)))
+            keeps = z3.Implies(inv_size(bp), inv_size(bq))
+            if c.mode == "prove":
+                # [L-SUM] (step) at (pre, post, f); the arbitrary Skolem file is bound to the file at which the two
+                # states could differ (late binding): its entry is untouched by the frame clause above
+                g0 = pre.ghost["skolem_files"][0]
+                c.eng.note("[L-SUM]")
+                keeps = z3.Implies(z3.And(g0 == sum_diff(bp, bq, f), lsum_step(bp, bq, f)), keeps)
+            out.append(("C15:Inv.size-kept", keeps))
             return out
 
         def nofault(c):
@@ -558,6 +626,7 @@ class FlushBufferLoop(LoopSpec):
                 for k in E.ghost.get("skolem_res", []):
                     out.append((f"lock-table-grows:{nme[8:]}", z3.Implies(z3.Select(E.g[nme], k), z3.Select(st.g[nme], k))))
         R = bS.reg
+        out.append(("Inv.size", inv_size(bS)))
         for f0 in E.ghost.get("skolem_files", []):
             (_, k_c, a_c) = E.ghost["covers"][f0.get_id()]
             had, changed = bE.has(f0), bE.changed(f0)
@@ -604,6 +673,14 @@ class FlushBufferLoop(LoopSpec):
             out.append(z3.Implies(cover_in(R, k_c, a_c), member_facts(L.eng, st, cn, VRef(a_c))))
             # Inv.buffer: a present entry is well-formed (as assumed at every read of the buffer)
             out.append(z3.Implies(bS.has(f0), bS.wellformed(f0)))
+            # [L-SUM] (step) across the popitem of this iteration: it changes the registry object only
+            p = st.copy()
+            p.upd("Cell", bS.ra, bs.dict_popitem_rest(R))
+            bP = Buf(L.eng, p, cn)
+            d = sum_diff(bS, bP, f0)
+            L.eng.note("[L-SUM]")
+            out.append(lsum_step(bS, bP, f0))
+            out.append(z3.Implies(bS.has(d), bS.wellformed(d)))      # Inv.buffer at the witness file
         return out
 
 
